@@ -6,6 +6,9 @@ package c16
 import (
 	"context"
 	"crypto/x509"
+	"encoding/base64"
+	"encoding/json"
+	"encoding/pem"
 	"fmt"
 	mrand "math/rand/v2"
 	"net/http"
@@ -296,6 +299,16 @@ func (c *histCfg) precheck(dir string) error {
 	return nil
 }
 
+// lazyPrecheck runs the (expensive) precheck only for histories that are about to be reported.
+func (c *histCfg) lazyPrecheck(res *histResult, dir string) {
+	if len(res.Problems) == 0 && res.Verdict != "illegal" && res.Unobs == 0 {
+		return
+	}
+	if err := c.precheck(dir); err != nil {
+		res.Harness = "generator/precheck: " + err.Error()
+	}
+}
+
 func describeGen(g *genSpec) string {
 	var s []string
 	for _, e := range g.Entries {
@@ -429,10 +442,6 @@ func runSignerHistory(seed int64, h int, pool map[string][]*poolKey, ca *caSet, 
 	}
 	res.Cfg = cfg
 	res.Kinds = cfg.kinds()
-	if err := cfg.precheck(dir); err != nil {
-		res.Harness = "generator/precheck: " + err.Error()
-		return res
-	}
 	path := filepath.Join(dir, fmt.Sprintf("ks-%d.pem", h))
 	if err := atomicWrite(path, cfg.Gens[0].pem); err != nil {
 		res.Harness = err.Error()
@@ -474,7 +483,7 @@ func runSignerHistory(seed int64, h int, pool map[string][]*poolKey, ca *caSet, 
 	histStart := time.Now().Unix()
 	waitFor := func(n int64) {
 		for tokDone.Load() < n {
-			time.Sleep(40 * time.Microsecond)
+			time.Sleep(100 * time.Microsecond)
 		}
 	}
 	var wg sync.WaitGroup
@@ -620,6 +629,7 @@ func runSignerHistory(seed int64, h int, pool map[string][]*poolKey, ca *caSet, 
 	res.Problems = rec.problems
 	res.Reused = int(rec.reused.Load())
 	evaluateHistory(&res, rec.evs, u, true, nil)
+	cfg.lazyPrecheck(&res, dir)
 	return res
 }
 
@@ -700,4 +710,66 @@ func evaluateHistory(res *histResult, evs []sEv, u *universe, linear bool, done 
 	default:
 		res.Verdict = "unknown"
 	}
+}
+
+// runStaleCacheWitness is a deterministic side observation (NOT a verdict of C16, whose statement is about
+// the moment a token is created): with `signer.key_id` configured the kid is necessarily the same before
+// and after a key rotation, the cache key of the finalizer only covers kid/alg/iss, so a cached token
+// signed with the replaced key keeps being handed out although the published key set no longer
+// contains that key.
+func runStaleCacheWitness(pool map[string][]*poolKey, dir string) map[string]any {
+	out := map[string]any{}
+	if len(pool["P256"]) < 2 {
+		out["error"] = "pool too small"
+		return out
+	}
+	mkPEM := func(k *poolKey) []byte {
+		der, _ := x509.MarshalPKCS8PrivateKey(k.Key)
+		return pem.EncodeToMemory(&pem.Block{Type: "PRIVATE KEY", Headers: map[string]string{"X-Key-ID": "signing-key"}, Bytes: der})
+	}
+	a, b := pool["P256"][0], pool["P256"][1]
+	path := filepath.Join(dir, "witness.pem")
+	if err := atomicWrite(path, mkPEM(a)); err != nil {
+		out["error"] = err.Error()
+		return out
+	}
+	cc := newCreationCtx()
+	fin, err := finalizers.CreatePrototype(cc, "jwt-fin", "jwt", map[string]any{
+		"signer": map[string]any{"name": "me", "key_id": "signing-key", "key_store": map[string]any{"path": path}}, "ttl": "5m"})
+	if err != nil {
+		out["error"] = err.Error()
+		return out
+	}
+	memc, _ := memory.NewCache(nil, nil, nil)
+	exec := func() string {
+		ctx := newReqCtx(memc)
+		if err := fin.Execute(ctx, &subject.Subject{ID: "u1", Attributes: map[string]any{}}); err != nil {
+			return "error: " + err.Error()
+		}
+		return tokenFromHeader(ctx.UpstreamHeaders().Get("Authorization"))
+	}
+	verifies := func(tok string, k *poolKey) bool {
+		p := strings.Split(tok, ".")
+		if len(p) != 3 {
+			return false
+		}
+		sig, _ := base64.RawURLEncoding.DecodeString(p[2])
+		return verifySig("ES256", k.Key.Public(), []byte(p[0]+"."+p[1]), sig)
+	}
+	t1 := exec()
+	_ = atomicWrite(path, mkPEM(b))
+	cc.w.l[0].OnChanged(zerolog.Nop())
+	t2 := exec()
+	body, _ := gojson.Marshal(jose.JSONWebKeySet{Keys: cc.r.Keys()})
+	var doc struct {
+		Keys []map[string]any `json:"keys"`
+	}
+	_ = json.Unmarshal(body, &doc)
+	publishedIsB := len(doc.Keys) == 1 && jwkMatches(doc.Keys[0], &entrySpec{Kid: "signing-key", Alg: "ES256", pub: b.Key.Public()}) == ""
+	out["steps"] = "store A (X-Key-ID signing-key, ES256) -> Execute(u1) with cache = T1 -> store B (same X-Key-ID, new ES256 key) + OnChanged -> Execute(u1) with cache = T2"
+	out["t2_is_the_cached_t1"] = t1 == t2
+	out["t2_verifies_with_replaced_key_A"] = verifies(t2, a)
+	out["t2_verifies_with_published_key_B"] = verifies(t2, b)
+	out["published_key_set_is_exactly_B"] = publishedIsB
+	return out
 }
